@@ -165,7 +165,7 @@ def extract(p, sc=0):
                 onstart = bool(d.get("onstart"))
                 mg = bool(d.get("maxgapduration"))
                 gl = bool(d.get("gaplength"))
-                glen = int(dur_secs(d.get("gaplength")) // 3600) if gl else 0      # whole hours, counted as slots (D24)
+                glen = int(-(-dur_secs(d.get("gaplength")) // G)) if gl else 0      # slots of working time that cover the gap length (D24)
             else:
                 tt, gap, onstart, mg, gl, glen = d, None, False, False, False, 0
             known = tt.fullId in tix and tasks[tix[tt.fullId] - 1] is tt
